@@ -200,7 +200,7 @@ def check_cases(cases: list[dict], rep: Report, known: dict) -> None:
 
 
 def k1_explains(c: dict, label: str, ptxt: str) -> bool:
-    with common.k1_disabled():
+    with common.k1_disabled() as k1:
         e = wire.build_raw(c["e"])
         if label == "normalize":
             out = call(e._normalize, timeout=60)
@@ -215,7 +215,7 @@ def k1_explains(c: dict, label: str, ptxt: str) -> bool:
                     cur = cur._take_reduction_step()
                 return cur
             out = call(go, timeout=60)
-    if out[0] != "ok":
+    if out[0] != "ok" or not k1.hits:
         return False
     b = Batch()
     i, j = b.ask(f"F0 eval {c['e']} {ptxt}"), b.ask(f"F0 eval {wire.expr(out[1])} {ptxt}")
